@@ -631,6 +631,9 @@ pub fn sess_witness(sid: u64, fam: &str, seed: u64, o: &Opts) -> Sess {
         s.call(op, "A", "B", 'm', 'm', true);
     }
     s.call("diff", "B", "A", 'm', 'm', false);
+    for op in ["int", "union", "xor"] {
+        s.call(op, "B", "A", 'm', 'm', false);
+    }
     s
 }
 
